@@ -67,11 +67,18 @@ func sweep() []*Scenario {
 			for _, cmd := range cmds {
 				for inj := 0; inj <= nInfo+1; inj++ { // inj == nInfo+1: the command races with the search returning
 					for _, fol := range follows {
-						for _, bp := range []bool{false, true} {
+						for bpi, bp := range []bool{false, true, false, true} {
+							// bpi >= 2: the same shape with a mock that does not poll PonderHit after its last
+							// progress point (as the real search, whose last poll precedes its last output and
+							// its return) - only for ponderhit injected into a ponder search
+							ntp := bpi >= 2
+							if ntp && !(cmd == "ponderhit" && strings.Contains(g, "ponder")) {
+								continue
+							}
 							if (nInfo+gi+inj)%2 == 1 && bp && fol == "isready" {
 								continue // thin out
 							}
-							sc := &Scenario{Kind: "sweep", NInfo: nInfo}
+							sc := &Scenario{Kind: "sweep", NInfo: nInfo, NoTailPoll: ntp}
 							a := func(s ...string) { sc.Actions = append(sc.Actions, s...) }
 							if strings.Contains(g, "ponder") {
 								a("send setoption name Ponder value true")
